@@ -86,7 +86,7 @@ def generate(prop, seed, tier='quick', sub='crash'):
             fop.pop('from_key', None)
             fop.setdefault('c', rng.randrange(len(pool)))
             followups.append(fop)
-    if kind == 'add_pack' and rng.random() < (0.04 if sub != 'restart' else 0.0):
+    if kind == 'add_pack' and sub in ('crash', 'powerloss') and rng.random() < 0.03:
         # a batch that crosses the library's 1000-row paging / flushing granularity in one call
         victim['mass'] = 1000 + rng.randint(0, 60)
     pending = None
